@@ -153,7 +153,8 @@ macro_rules! all_for_field {
 pub fn run(args: &Args) {
     let mut rep = Report::new("C15", "c15",
         "Blake3_256, Blake3_192, Sha3_256 over f62/f64/f128: hash on byte strings of every length 0..300 and around 1 KiB/2 KiB/64 KiB, merge, merge_many on 0..40 digests, merge_with_int at limb boundaries, hash_elements on 0..40 and around 42/64/128/256/1000 elements of base, quadratic and cubic types with non-canonical representations; expected value = blake3/sha3 crate applied to the layout assembled from canonical values; distinct = (hasher, op, size)");
-    let n = 400;
+    // --len bounds the byte / element counts (the Miri stage uses a small bound)
+    let n = args.u64("len", 400);
     let rounds = args.budget(1, 60);
     for round in 0..rounds {
     let seed = args.seed().wrapping_add(round * 7919);
